@@ -440,7 +440,11 @@ impl<S: PageSize> Iterator for PageRangeInclusive<S> {
             // So instead, in that case we decrement end rather than incrementing start.
             let max_page_addr = VirtAddr::new(u64::MAX) - (S::SIZE - 1);
             if self.start.start_address() < max_page_addr {
-                self.start += 1;
+                // The page after the last page of the lower half is the first page of the
+                // higher half, so jump over the non-canonical gap instead of panicking.
+                self.start = Page::containing_address(VirtAddr::new_truncate(
+                    self.start.start_address().as_u64() + S::SIZE,
+                ));
             } else {
                 self.end -= 1;
             }
